@@ -1429,6 +1429,21 @@ def c15(tier):
     rep.extra["storm_commits"] = summary["commits"]
     for pr in summary["problems"]:
         rep.violation("storm: " + pr, {"kind": "workers-live", "seed": SEED})
+    # tree columns: a dereference postponed because a reader holds the tree, alone in the queue, must be logged once
+    # the reader is gone without any further commit (the log worker may not go to sleep on it)
+    for var in ("", "rc"):
+        p = vcore.pdbh("mtree-scenario", {"which": "QUIET", "variant": var}, timeout=300)
+        line = [l for l in p.stdout.splitlines() if l.startswith("{")]
+        if not line:
+            raise ToolError("mtree-scenario QUIET printed no result")
+        r = json.loads(line[-1])
+        if not r.get("reached"):
+            raise ToolError("scenario QUIET: no reader lock was obtained")
+        rep.evaluations += 1
+        rep.nontrivial.add("quiet-defer-%s" % var)
+        for v in r["violations"]:
+            rep.violation("postponed dereference: %s" % v, {"kind": "mtree-scenario", "which": "QUIET", "variant": var})
+        log("[scenario] QUIET variant=%r: %d violations" % (var, len(r["violations"])))
     rep.sample({"forced_schedules": rep.extra.get("forced_schedules"), "storm": summary})
     return rep.finish()
 
